@@ -104,10 +104,6 @@ Fixpoint scan (acc : option str) (s : str) : list token :=
 Definition is_markup (t : token) : bool := match t with Chr _ => false | _ => true end.
 Definition chars_of (ts : list token) : str := flat_map (fun t => match t with Chr c => [c] | _ => [] end) ts.
 
-Fixpoint take_while (p : chr -> bool) (s : str) : str :=
-  match s with c :: r => if p c then c :: take_while p r else [] | [] => [] end.
-Fixpoint drop_while (p : chr -> bool) (s : str) : str :=
-  match s with c :: r => if p c then drop_while p r else s | [] => [] end.
 
 Definition name_chr (c : chr) : bool := is_alpha c || is_digit c || (c =? 45) || (c =? 95).
 
@@ -392,10 +388,6 @@ Definition s_dotdot : str := Eval vm_compute in lit "..".
 Definition elem (n : str) (attrs : list (str * str)) (body : list piece) : list piece :=
   POpen n attrs :: body ++ [PClose n].
 
-(* str(x).split()[-1] *)
-Definition is_space (c : chr) : bool := (c =? 32) || ((9 <=? c) && (c <=? 13)).
-Definition last_word (s : str) : str :=
-  rev (take_while (fun c => negb (is_space c)) (drop_while is_space (rev s))).
 
 (* filter_display_type: Python code that builds a str with markup; here as pieces, the str is `render` of them *)
 Fixpoint disp_type (d : dtype) : list piece :=
@@ -816,3 +808,89 @@ Definition w_user : ty := Comp (mk_cinfo "rega.User" "rega" false)
                                (ANested (lit "inner") [] w_inner (ANested (lit "o") [] w_other ANil)).
 Definition w_site_ok : list nst :=
   [NS (lit "rega") [] [(lit "Inner", w_inner); (lit "User", w_user)] NNil; NS (lit "regb") [] [(lit "Other", w_other)] NNil].
+
+(* ---------------------------------------------------------------------------------------- *)
+(* 8. universal link theorem: vocabulary                                                     *)
+(* ---------------------------------------------------------------------------------------- *)
+(* the composite types for which generate_type_info writes a type link while rendering t (the nested occurrences) *)
+Fixpoint refs_ty (t : ty) (nested : bool) {struct t} : list cinfo :=
+  match t with
+  | Prim _ => []
+  | Comp c a => (if nested then [c] else []) ++ refs_attrs a
+  | Arr _ _ _ e => refs_ty e true
+  end
+with refs_attrs (a : attrs) {struct a} : list cinfo :=
+  match a with
+  | ANil => []
+  | ANested _ _ t r => refs_ty t true ++ refs_attrs r
+  | APlain _ _ _ _ r => refs_attrs r
+  end.
+Definition refs_types (ts : list (str * ty)) : list cinfo :=
+  flat_map (fun e => if str_eqb (fst e) namespace_doc_key then [] else refs_ty (snd e) false) ts.
+Fixpoint refs_ns (n : nst) : list cinfo :=
+  match n with NS _ _ ts subs => refs_types ts ++ refs_nsl subs end
+with refs_nsl (l : nsl) : list cinfo :=
+  match l with NNil => [] | NCons n r => refs_ns n ++ refs_nsl r end.
+
+(* the anchor filter_url_from_type puts after '#': the tag id of the type, or of the SERVICE for its request/response halves *)
+Definition url_anchor (t : tinfo) : str :=
+  str_replace1 46 s_us (if ti_has_parent t then ti_full_namespace t else ti_full_name t)
+  ++ s_us ++ dec_of_Z (ti_major t) ++ s_us ++ dec_of_Z (ti_minor t).
+
+(* what pydsdl + "generate every root namespace that is referenced" guarantee about a referenced composite: its root
+   namespace is one of the generated roots (a single DSDL identifier) and that root's tree lists a type whose id is the anchor *)
+Definition ref_resolves (roots : list nst) (c : cinfo) : Prop :=
+  exists r', In r' roots /\ ns_name r' = ti_root_ns (ci_t c) /\ seg_ok (ns_name r') = true
+             /\ exists c', In c' (all_listed r') /\ filter_tag_id (ci_t c') = url_anchor (ci_t c).
+
+Definition ndots (s : str) : nat := length (filter (fun c => c =? 46) s).
+
+(* ---------------------------------------------------------------------------------------- *)
+(* 9. well-formedness without a per-page check: vocabulary                                   *)
+(* ---------------------------------------------------------------------------------------- *)
+(* free of < > and both quotes: what the DSDL grammar guarantees for names, type expressions and printed constant values,
+   and what both escape functions guarantee for arbitrary text *)
+Definition quote_free (s : str) : bool := forallb (fun c => negb ((c =? 60) || (c =? 62) || (c =? 34) || (c =? 39))) s.
+
+(* filter_display_type reads a dnode; the emitter's dtype / dinst are its two sorts *)
+Fixpoint node_of_dtype (d : dtype) : dnode :=
+  match d with
+  | DPrim sat s => NPrim sat s
+  | DFix e cap => NFixed (node_of_dtype e) cap
+  | DVar e cap => NVar (node_of_dtype e) cap
+  | DOther s => NOther s
+  end.
+Definition node_of_dinst (di : dinst) : dnode :=
+  match di with
+  | DPad s => NPad s
+  | DField d nm => NField (node_of_dtype d) nm
+  | DConst d nm val => NConst (node_of_dtype d) nm val
+  end.
+
+Definition tinfo_ok (t : tinfo) : bool :=
+  quote_free (ti_full_name t) && quote_free (ti_root_ns t) && quote_free (ti_full_namespace t) && quote_free (ti_elem_str t).
+Fixpoint dtype_ok (d : dtype) : bool :=
+  match d with DPrim _ s => quote_free s | DFix e _ => dtype_ok e | DVar e _ => dtype_ok e | DOther s => quote_free s end.
+Definition dinst_ok (di : dinst) : bool :=
+  match di with
+  | DPad s => quote_free s
+  | DField d nm => dtype_ok d && quote_free nm
+  | DConst d nm val => dtype_ok d && quote_free nm && quote_free val
+  end.
+(* every DSDL-derived string OTHER THAN documentation is quote_free; documentation texts are arbitrary *)
+Fixpoint ty_ok (t : ty) {struct t} : bool :=
+  match t with
+  | Comp c a => tinfo_ok (ci_t c) && attrs_ok a
+  | Arr es _ d e => quote_free es && dtype_ok d && ty_ok e
+  | Prim s => quote_free s
+  end
+with attrs_ok (a : attrs) {struct a} : bool :=
+  match a with
+  | ANil => true
+  | ANested nm _ t r => quote_free nm && ty_ok t && attrs_ok r
+  | APlain di _ _ _ r => dinst_ok di && attrs_ok r
+  end.
+Fixpoint nst_ok (n : nst) : bool :=
+  match n with NS name _ ts subs => quote_free name && forallb (fun e => ty_ok (snd e)) ts && nsl_ok subs end
+with nsl_ok (l : nsl) : bool :=
+  match l with NNil => true | NCons n r => nst_ok n && nsl_ok r end.
